@@ -6,7 +6,7 @@ package parser
 
 /*@
 // tokens are never rewritten after scanning / alias declaration
-immutable token.Token ddptypes.ParameterType
+immutable token.Token ddptypes.ParameterType []token.Token
 
 // the only precondition the parser guarantees for alias tokens
 spec wfTok(t *token.Token) bool := t != nil && (t.Type == token.ALIAS_PARAMETER ==> t.AliasInfo != nil)
